@@ -597,10 +597,10 @@ impl InstrFormat for InstrFormat06 {
         }
     }
 
-    fn write_instr(&self, f: &mut BinWriter, _: &dyn Emitter, instr: &RawInstr) -> WriteResult {
-        f.write_i16(instr.time as _)?;
-        f.write_u8(instr.opcode as _)?;
-        f.write_u8(instr.args_blob.len() as _)?;
+    fn write_instr(&self, f: &mut BinWriter, emitter: &dyn Emitter, instr: &RawInstr) -> WriteResult {
+        f.write_i16(llir::fit_instr_field(emitter, "time", instr.time)?)?;
+        f.write_u8(llir::fit_instr_field(emitter, "opcode", instr.opcode)?)?;
+        f.write_u8(llir::fit_instr_field(emitter, "argument size", instr.args_blob.len())?)?;
         f.write_all(&instr.args_blob)?;
         Ok(())
     }
@@ -630,10 +630,10 @@ impl InstrFormat for InstrFormat07 {
         Ok(ReadInstr::Instr(RawInstr { time, opcode: opcode as _, param_mask, args_blob, ..RawInstr::DEFAULTS }))
     }
 
-    fn write_instr(&self, f: &mut BinWriter, _: &dyn Emitter, instr: &RawInstr) -> WriteResult {
+    fn write_instr(&self, f: &mut BinWriter, emitter: &dyn Emitter, instr: &RawInstr) -> WriteResult {
         f.write_u16(instr.opcode)?;
-        f.write_u16(self.instr_size(instr) as _)?;
-        f.write_i16(instr.time as _)?;
+        f.write_u16(llir::fit_instr_field(emitter, "size", self.instr_size(instr))?)?;
+        f.write_i16(llir::fit_instr_field(emitter, "time", instr.time)?)?;
         f.write_u16(instr.param_mask as _)?;
         f.write_all(&instr.args_blob)?;
         Ok(())
